@@ -63,6 +63,12 @@ func (p *reqPlan) String() string {
 
 func reqBodyID(id uint32) uint32 { return id | 0x80000000 }
 
+// flushFirst: the handler calls Flush before its first Write (a streaming handler). Only for
+// HTTP/1.1: there the response is still self-delimiting (chunked or with its declared length)
+// and the connection is kept or closed as the request dictates; for HTTP/1.0 a head sent before
+// the length is known ends at the close, which is a framing decision (C09), not a verdict here.
+func (p *reqPlan) flushFirst() bool { return !p.Proto10 && !p.Kill && p.ID%7 == 3 }
+
 // headers renders the X- headers of a plan.
 func (p *reqPlan) headers() [][2]string {
 	hs := [][2]string{
@@ -84,6 +90,9 @@ func (p *reqPlan) headers() [][2]string {
 	}
 	if p.Jitter > 0 {
 		hs = append(hs, [2]string{"X-Jit", strconv.Itoa(p.Jitter)})
+	}
+	if p.flushFirst() {
+		hs = append(hs, [2]string{"X-Flush", "first"})
 	}
 	return hs
 }
@@ -234,6 +243,12 @@ func (e *env) ServeHTTP(w http.ResponseWriter, r *http.Request) {
 	}
 	if n == 0 {
 		return
+	}
+	if hd.Get("X-Flush") == "first" {
+		if f, ok := w.(http.Flusher); ok {
+			f.Flush()
+			e.r.Count("handlers_that_flushed_before_their_first_write", 1)
+		}
 	}
 	payload := outb.Payload(id, n)
 	prev := 0
